@@ -121,6 +121,7 @@ func ruleServeShutdown(c *Ctx) {
 	}
 	info := pk.TypesInfo
 	var loop, apiStop, aioStop, apiStart, aioStart *ast.CallExpr
+	var allStops []*ast.CallExpr
 	inLit := map[*ast.CallExpr]bool{}
 	for _, fd := range allFuncDecls(pk) {
 		ast.Inspect(fd.Body, func(n ast.Node) bool {
@@ -138,8 +139,10 @@ func ruleServeShutdown(c *Ctx) {
 				loop = call
 			case se.Sel.Name == "Stop" && namedPkgPath(rt) == pkgIApi:
 				apiStop = call
+				allStops = append(allStops, call)
 			case se.Sel.Name == "Stop" && namedPkgPath(rt) == pkgIAio:
 				aioStop = call
+				allStops = append(allStops, call)
 			case se.Sel.Name == "Start" && namedPkgPath(rt) == pkgIApi:
 				apiStart = call
 			case se.Sel.Name == "Start" && namedPkgPath(rt) == pkgIAio:
@@ -159,6 +162,11 @@ func ruleServeShutdown(c *Ctx) {
 		return
 	}
 	ok := loop.Pos() < apiStop.Pos() && apiStop.Pos() < aioStop.Pos() && !inLit[apiStop] && !inLit[aioStop] && !inLit[loop]
+	for _, st := range allStops {
+		if st.Pos() < loop.Pos() || inLit[st] {
+			ok = false
+		}
+	}
 	c.check(ok, "serve/shutdown-order", loop.Pos(), "Loop() returns, then api.Stop(), then aio.Stop() (the store closes last)", "the store/API are stopped before the kernel loop has returned (or concurrently with it): accepted requests are cut off and the database may be reset or closed under running transactions")
 	if apiStart != nil && aioStart != nil {
 		c.check(apiStart.Pos() < loop.Pos() && aioStart.Pos() < loop.Pos(), "serve/start-before-loop", apiStart.Pos(), "subsystems are started before the loop", "a subsystem is started after the kernel loop")
